@@ -359,6 +359,15 @@ func (e *exprCtx) expr(v ssa.Value) string {
 	case *ssa.Parameter:
 		for i, p := range x.Parent().Params {
 			if p == x {
+				// a parameter of a new helper with one call site is the argument passed there
+				if !e.seen[x] {
+					if arg := e.c.uniqueCallArg(x.Parent(), i); arg != nil {
+						e.seen[x] = true
+						s := e.expr(arg)
+						delete(e.seen, x)
+						return s
+					}
+				}
 				return fmt.Sprintf("p%d", i)
 			}
 		}
